@@ -1,5 +1,5 @@
 CHECK = {
-    "suites": [suite("conversation", "c16", 1500, 20000, stdin=True, timeout={"quick": 600, "thorough": 2400})],
+    "suites": [suite("conversation", "c16", 3000, 30000, stdin=True, timeout={"quick": 600, "thorough": 2400})],
     "lean_sources": ["ClusterVerif/Model/C16.lean", "ClusterVerif/Spec/C16.lean", "ClusterVerif/Lemmas/C16.lean"],
     "rule": "cases = (op pin|unpin|PinLsCid, MaxDepth in {-2,-1,0,1,2,7}, Mode, update source none|other|same, 0-13 origins, UnpinDisable, "
             "prior daemon state u|d|r|i of every CID, one of 20 daemon behaviours per sequential request + one for swarm/connect, wire variant) "
